@@ -632,7 +632,16 @@ def _finish(r, contract, case, ctx, cname, want_models, fn, extra=None):
         if extra:
             out["writes"] = extra
         if want_models:
-            out["replay"] = replay(contract, case, vals, cname)
+            why = None
+            if ctx.ghost.get("$modular"):
+                names = ", ".join(sorted(set(q.rsplit(".", 1)[-1] for q in ctx.ghost["$modular"])))[:120]
+                why = "the path used callee contracts (" + names + "): a native run returns the callees' real values where the clause speaks about their summaries"
+            elif ctx.ghost.get("$abstract-loop"):
+                why = "the path used a loop summary / an arbitrary iteration: there is no single concrete call to run"
+            elif hasattr(contract, "replay_supported") and not contract.replay_supported():
+                why = "the contract's arguments are ghost models of library objects"
+            # a native replay is only evidence when the real run computes the very values the clause talks about
+            out["replay"] = dict(status="not-replayable", reason=why) if why else replay(contract, case, vals, cname)
     return out
 
 
